@@ -1683,10 +1683,10 @@ func TestCheck(t *testing.T) {
 	y := vlib.NewYielder(run.Seed(), 25)
 	y.Install()
 	defer vlib.Uninstall()
-	run.Each(run.N(600, 200000), 8, func(i int) { testerCase(run, i) })
+	run.Each(run.N(600, 500000), 8, func(i int) { testerCase(run, i) })
 	pinned(run)
 	pinnedWide(run)
-	run.Each(run.N(240, 40000), 4, func(i int) { runHistory(run, i, nil) })
+	run.Each(run.N(240, 100000), 4, func(i int) { runHistory(run, i, nil) })
 	agg := vlib.NewHitAgg()
 	agg.Add(y)
 	agg.Report(run)
